@@ -42,6 +42,9 @@ import (
 //	unreadable-before-age-out
 //	served-expired,                    "records older than the configured maximum age are never served".
 //	served-expired-by-receipt
+//	local-put-not-refused              "a local PutValue is refused when a better value is already stored"
+//	                                   (dht-node scenario; judged on the node's own read AND on the datastore
+//	                                   itself, c05Oracle.storedThroughout, in every node mode: c05_dht.go).
 //
 // The age of a record is the time since THIS node received it. The rules
 // served-expired / get-missing / delete-fresh read the age off the stored
@@ -86,6 +89,70 @@ type c05Oracle struct {
 	receipt map[int]c05Receipt // log number of an applied write -> receipt window of the record it stored
 	content map[string]int     // datastore key -> log number of the write that produced its current content
 	readSaw map[int]int        // log number of an applied read -> log number of the write whose content it saw
+	// hist: per datastore key, every applied write and delete in order (the
+	// harness's own record of what is stored when; see storedThroughout)
+	hist map[string][]c05Change
+}
+
+// c05Change is one applied change of a datastore key: a write (w = the log
+// entry of the put, whose Val is the content from then on) or a delete (w nil).
+type c05Change struct {
+	step int
+	tag  string
+	w    *simds.Rec
+}
+
+// storedThroughout looks at the datastore itself (the harness owns it), not at
+// what the node read: it reports whether record key held, without interruption
+// from before step `from` to step `to`, a record that the validator accepts for
+// that key and that the node had received less than the maximum age before the
+// instant `at` (harness clock, whichever instant of its receipt window the
+// record arrived at). Changes applied by the judged operation itself (datastore
+// tag self, "" = none) are left out. minRank is the lowest rank among the
+// contents the key had in that window. Steps are compared inclusively on both
+// sides, so a change that shares a step with the window's ends counts as inside
+// AND the content before it must qualify too.
+func (o *c05Oracle) storedThroughout(key string, from, to int, at time.Duration, self string) (minRank int, ok bool) {
+	for dskey, changes := range o.hist {
+		if k, kok := decodeDsKey(dskey); !kok || k != key {
+			continue
+		}
+		var window []c05Change
+		var before *c05Change
+		for i := range changes {
+			c := changes[i]
+			switch {
+			case c.step < from:
+				before = &changes[i]
+			case c.step <= to && (self == "" || c.tag != self):
+				window = append(window, c)
+			}
+		}
+		if before == nil {
+			return 0, false
+		}
+		window = append(window, *before)
+		minRank = -1
+		for _, c := range window {
+			if c.w == nil {
+				return 0, false
+			}
+			_, rank, pok := o.parseStored(c.w.Key, c.w.Val)
+			if !pok {
+				return 0, false
+			}
+			if o.maxAge > 0 {
+				if _, hi, rok := o.receiptAge(c.w.N, at); !rok || hi >= o.maxAge {
+					return 0, false
+				}
+			}
+			if minRank < 0 || rank < minRank {
+				minRank = rank
+			}
+		}
+		return minRank, true // at most one datastore key decodes to a given record key
+	}
+	return 0, false
 }
 
 // c05Receipt: the node received the record some time in [lo, hi].
@@ -218,6 +285,7 @@ func (o *c05Oracle) onApply(r *simds.Rec) {
 	s := o.s
 	if o.receipt == nil {
 		o.receipt, o.content, o.readSaw = map[int]c05Receipt{}, map[string]int{}, map[int]int{}
+		o.hist = map[string][]c05Change{}
 	}
 	switch r.Op {
 	case "get":
@@ -237,6 +305,7 @@ func (o *c05Oracle) onApply(r *simds.Rec) {
 			}
 		}
 		o.receipt[r.N], o.content[r.Key] = rc, r.N
+		o.hist[r.Key] = append(o.hist[r.Key], c05Change{step: r.Step, tag: r.Tag, w: r})
 		// The validator ran at some instant of the writing operation: demand
 		// validity at the earliest one (a verdict can only turn from valid to
 		// invalid as the clock advances).
@@ -257,6 +326,7 @@ func (o *c05Oracle) onApply(r *simds.Rec) {
 		}
 		w, wok := o.content[r.Key]
 		delete(o.content, r.Key)
+		o.hist[r.Key] = append(o.hist[r.Key], c05Change{step: r.Step, tag: r.Tag})
 		if !r.Found {
 			return
 		}
